@@ -339,6 +339,10 @@ func formatInto(sb *strings.Builder, format string, args []string) (int, error) 
 				fallthrough
 			default: // no escape sequence
 				sb.WriteByte('\\')
+				if c == '%' {
+					i-- // the backslash does not escape a conversion
+					break
+				}
 				sb.WriteByte(c)
 			}
 		case len(fmts) > 0:
